@@ -296,7 +296,7 @@ def main(argv=None):
     os.makedirs(replay_dir, exist_ok=True)
     n_obl = n_dis = n_unknown = n_sat = 0
     per_id: dict = {}
-    violations, known_hits, nonrepro, errors, unsupported = [], [], [], [], []
+    violations, known_hits, nonrepro, errors, unsupported, spurious = [], [], [], [], [], []
     inexhaustive = []
     fidelity_run = fidelity_ok = 0
     fidelity_bad = []
@@ -361,6 +361,10 @@ def main(argv=None):
                 violations.append(rec)
         elif rc != 4:
             errors.append(f"[{res['label']}] replay of {o['id']} crashed rc={rc}: {out[-800:]}")
+        elif o.get("abstracted"):
+            # the solver's model assigns the uninterpreted exp / log / pow values the real functions do not take: not a counterexample,
+            # and not a proof either
+            spurious.append({"obligation": o["id"], "task": res["label"], "replay": rp, "output": out[-300:]})
         else:
             nonrepro.append({"obligation": o["id"], "task": res["label"], "replay": rp, "output": out[-800:]})
 
@@ -376,6 +380,8 @@ def main(argv=None):
     for v in violations:
         print(f"VIOLATION property={pid} replay={v['replay']}")
         print(f"  obligation={v['obligation']} task={v['task']} model={json.dumps(v['model'])[:400]}")
+    for sp in spurious[:10]:
+        print(f"INCONCLUSIVE (solver model of the uninterpreted exp/log/pow is not realised by the real functions): {sp['obligation']} [{sp['task']}]")
     for n in nonrepro:
         print(f"HARNESS-ERROR: counterexample for {n['obligation']} [{n['task']}] did not reproduce: {n['output'][-300:]}")
     for e in errors[:10]:
@@ -408,8 +414,9 @@ def main(argv=None):
         "samples": samples or [{"note": "no path witness recorded", "tasks": [r["label"] for r in results][:5]}],
         "obligations": n_obl,
         "discharged": n_dis,
-        "inconclusive": n_unknown,
-        "counterexamples": n_sat,
+        "inconclusive": n_unknown + len(spurious),
+        "counterexamples": n_sat - len(spurious),
+        "spurious_under_function_axioms": [{"obligation": x["obligation"], "task": x["task"]} for x in spurious[:50]],
         "known_findings": [{"obligation": k["obligation"], "task": k["task"], "what": k["finding"]} for k in known_hits],
         "violations": [{"obligation": v["obligation"], "task": v["task"], "replay": v["replay"]} for v in violations],
         "per_obligation": per_id,
@@ -419,7 +426,7 @@ def main(argv=None):
              "wall_s": r.get("task_wall_s"), "exhaustive": r["exhaustive"], "aborted_paths": r.get("aborted_paths", 0)}
             for r in (results if len(results) <= 400 else sorted(results, key=lambda r: -(r.get("task_wall_s") or 0))[:400])
         ],
-        "exhaustive": not inexhaustive and not unsupported and not errors,
+        "exhaustive": not inexhaustive and not unsupported and not errors and not spurious and not n_unknown,
         "not_exhaustive": inexhaustive,
         "unsupported": unsupported[:20],
         "functions_encoded": _hash_functions(getattr(mod, "FUNCTIONS", [])),
@@ -450,7 +457,7 @@ def main(argv=None):
             json.dump(ev, fh, indent=1, default=repr)
     print(
         f"{pid} tier={tier}: tasks={len(results)} paths={paths} queries={queries} solver={solver_time:.1f}s "
-        f"obligations={n_obl} discharged={n_dis} inconclusive={n_unknown} cex={n_sat} known={len(known_hits)} "
+        f"obligations={n_obl} discharged={n_dis} inconclusive={n_unknown + len(spurious)} cex={n_sat - len(spurious)} known={len(known_hits)} "
         f"violations={len(violations)} fidelity={fidelity_ok}/{fidelity_run} wall={wall:.1f}s"
     )
     if violations:
